@@ -884,6 +884,8 @@ pub fn run(cfg: &Cfg) -> Report {
     "every in in [1] satisfies true",
     "for in in [1] return 1",
     "{f: function(n) f(n), r: f(1)}.r",
+    "number(\"1\\u00002\", \",\", \".\")",
+    "sort([43, 22, 38, 45, 17, 47, 31, 1, 37, 3, 43, 1, 23, 16, 40, 29, 19, 37, 38, 2, 9, 14, 33, 8, 21, 5], function(x,y) x != y)",
     "",
     " ",
     "\"",
@@ -939,6 +941,28 @@ pub fn run(cfg: &Cfg) -> Report {
       _ => format!("date and time({}, {})", gen_stress_arg(&mut rng), gen_stress_arg(&mut rng)),
     };
     inputs.push(("bif-stress".into(), e));
+  }
+  // strings with control characters (NUL included) handed to the conversions
+  for _ in 0..(if thorough { 4000 } else { 120 }) {
+    let t = *rng.pick(&["\\u0000", "1\\u00002", "\\u0000 1", "12\\u0000", "\\u0001", "\\u007F", "\\n1", "1\\t", "\\uFEFF1", "1e\\u00005"]);
+    let e = match rng.below(8) {
+      0 => format!("number(\"{}\", \",\", \".\")", t),
+      1 => format!("number(\"{}\", null, null)", t),
+      2 => format!("date(\"{}\")", t),
+      3 => format!("time(\"{}\")", t),
+      4 => format!("duration(\"{}\")", t),
+      5 => format!("date and time(\"{}\")", t),
+      6 => format!("matches(\"{}\", \"{}\")", t, t),
+      _ => format!("replace(\"a{}b\", \"{}\", \"{}\")", t, t, t),
+    };
+    inputs.push(("bif-stress".into(), e));
+  }
+  // sort with ordering functions that are not total orders, on lists long enough for the library sort to notice
+  for _ in 0..(if thorough { 3000 } else { 80 }) {
+    let n = 2 + rng.below(60) as usize;
+    let items: Vec<String> = (0..n).map(|_| format!("{}", rng.below(50))).collect();
+    let cmp = *rng.pick(&["x != y", "true", "false", "x > y or x = 3", "y < x", "x <= y", "x = y", "x < y", "x + y > 40", "null", "x", "x - y"]);
+    inputs.push(("bif-stress".into(), format!("sort([{}], function(x, y) {})", items.join(", "), cmp)));
   }
   // time / date constructors with components inside their ranges and seconds of arbitrary precision
   for _ in 0..(if thorough { 20000 } else { 300 }) {
